@@ -576,6 +576,9 @@ macro_rules! impl_rem_assign_scalar {
             #[inline]
             fn rem_assign(&mut self, other: &BigUint) {
                 *self = match other.$to_scalar() {
+                    // `other` exceeds the scalar's MAX, so it exceeds `|self|` too, except
+                    // for a signed `MIN` whose magnitude `MAX + 1` may equal `other`.
+                    None if crate::BigInt::from(*self).magnitude() == other => 0,
                     None => *self,
                     Some(0) => panic!("attempt to divide by zero"),
                     Some(v) => *self % v
